@@ -1,17 +1,19 @@
-SPECIFICATION SpecC11Live
+SPECIFICATION SpecC11Kinds
 CONSTANTS
-  Validators = {1}
+  Validators = {1, 2}
   Externals = {3}
   Relays = {1, 2}
-  Nodes = {1}
-  DocIds = {2}
-  FailKinds = {}
+  Nodes = {1, 2, 3}
+  DocIds = {2, 3}
+  FailKinds = {"error"}
   Ops = {}
   MaxInFlight = 0
   AuctionImpl = "intended"
   Resolution = "locked"
-  MaxRounds = 3
-  ErrKinds <- ErrKindsOne
+  MaxRounds = 2
+
 INVARIANTS TypeOKC11 RegistrationExact SignedOverContent ReuseOnlyIfUnchanged FailureIsolated PreparationExact PreparationIsolated ControlledDropped ForwardedUnchanged ForwardedAll F2ControlledDropped F2ForwardedUnchanged F2ForwardedAll KeepsLastGood CallsProgress
-PROPERTIES RoundReturns F2Returns
+CONSTRAINT RoundBound
+CONSTRAINT NoLane2
+CONSTRAINT OnlyPrep
 CHECK_DEADLOCK FALSE
